@@ -25,11 +25,12 @@ import (
 )
 
 type peerOp struct {
-	Op  string `json:"op"`
-	K   int    `json:"k"`
-	T   string `json:"t"`
-	How string `json:"how"`
-	V   int    `json:"v"`
+	Op     string `json:"op"`
+	K      int    `json:"k"`
+	T      string `json:"t"`
+	How    string `json:"how"`
+	Policy string `json:"policy"`
+	V      int    `json:"v"`
 }
 
 type c15Case struct {
@@ -66,7 +67,12 @@ func c15Configs(role string, ca bool) (cc, sc *gmtls.Config, eutIsClient bool, e
 			cc.Certificates = []gmtls.Certificate{f.auth}
 		}
 	} else {
-		cc = &gmtls.Config{RootCAs: f.rsaCA, ServerName: "localhost", MaxVersion: gmtls.VersionTLS12,
+		both := x509.NewCertPool() // both CAs: a certificate of the other key family then passes chain verification
+		for _, n := range []string{"SM2_CA.cer", "RSA_CA.cer"} {
+			b, _ := os.ReadFile(certPath(n))
+			both.AppendCertsFromPEM(b)
+		}
+		cc = &gmtls.Config{RootCAs: both, ServerName: "localhost", MaxVersion: gmtls.VersionTLS12,
 			CipherSuites: []uint16{gmtls.TLS_RSA_WITH_AES_128_GCM_SHA256}}
 		switch {
 		case strings.HasSuffix(role, "_ecdhe"):
@@ -143,6 +149,13 @@ func synth(kind string) []byte {
 		list := append(append([]byte(nil), one...), one...)
 		ll := len(list)
 		return hsMsg(11, append([]byte{byte(ll >> 16), byte(ll >> 8), byte(ll)}, list...))
+	case "CERT_SM2":
+		// one SM2 certificate (trusted by the client) where a TLS RSA suite expects an RSA one
+		f, _ := loadFixtures()
+		der := f.sig.Certificate[0]
+		l := len(der)
+		body := []byte{byte((l + 3) >> 16), byte((l + 3) >> 8), byte(l + 3), byte(l >> 16), byte(l >> 8), byte(l)}
+		return hsMsg(11, append(body, der...))
 	case "CERT_RSA":
 		f, _ := loadFixtures()
 		der := f.rsa.Certificate[0]
@@ -240,6 +253,23 @@ func (f *msgFilter) mutate(msg []byte) []byte {
 		// nothing to cut from an empty body: malform it the other way (a byte too many)
 		m = append(m, 0)
 		setL(1)
+		return m
+	}
+	if strings.HasPrefix(f.op.How, "cut") {
+		// a well-framed message whose body stops after N bytes (cutN) or N bytes before its end (cutendN)
+		var n int
+		if strings.HasPrefix(f.op.How, "cutend") {
+			fmt.Sscan(f.op.How[6:], &n)
+			n = len(body) - n
+		} else {
+			fmt.Sscan(f.op.How[3:], &n)
+		}
+		if n < 0 || n >= len(body) {
+			f.identity = true // nothing to cut there
+			return m
+		}
+		m = m[:4+n]
+		setL(n)
 		return m
 	}
 	switch f.op.How {
@@ -556,6 +586,12 @@ func runC15(c *c15Case, baseline bool) (c15Obs, error) {
 	var obs c15Obs
 	if c.Op.Op == "selfvers" {
 		return runSelfVers(c)
+	}
+	if c.Op.Op == "script" {
+		return runScript(c)
+	}
+	if c.Op.Op == "srvscript" {
+		return runServerScript(c)
 	}
 	cc, sc, eutIsClient, err := c15Configs(c.Role, c.Ca)
 	if err != nil {
